@@ -51,6 +51,10 @@ def parse_vspec(path):
             mode[1]["exit"] = text
         elif kind == "loop":
             mode[1]["loops"][mode[2]] = text
+        elif kind == "outl":
+            lines = [l for l in buf if l.strip()]
+            mode[1]["sig"] = lines[0].strip() if lines else ""
+            mode[1]["spec"] = "\n".join(lines[1:])
         elif kind == "exprh":
             lines = [l for l in buf if l.strip()]
             mode[1]["text"] = lines[0].strip() if lines else ""
@@ -102,13 +106,13 @@ def parse_vspec(path):
                 unit["doc"] = rest
             elif d == "use":
                 kv, flags = _kv(args[1:])
-                unit["uses"].append({"unit": args[0], "flags": flags})
+                unit["uses"].append({"unit": args[0], "flags": flags + [f"{k}={v}" for k, v in kv.items()]})
             elif d == "source":
                 cur_src = {"file": os.path.join(REPO, args[0]), "rel": args[0], "keep": [], "drop": [],
                            "external": [], "contracts": {}, "vec_places": [], "hoists": [],
                            "strip_derives": [], "for_rewrite": [], "chain_hoists": [],
-                           "item_stubs": {}, "macro_stubs": {}, "item_attrs": {}, "ident_renames": {}, "item_inject": {}, "trait_sized": [], "expr_hoists": [], "inherent_copy": [],
-                           "external_all": False, "verify": [], "strlit_facts": False, "parse_f64": False, "phf_stub": {}, "bitflags_stub": False, "known_lits": []}
+                           "item_stubs": {}, "macro_stubs": {}, "item_attrs": {}, "ident_renames": {}, "item_inject": {}, "trait_sized": [], "expr_hoists": [], "inherent_copy": [], "outlines": [],
+                           "external_all": False, "verify": [], "strlit_facts": False, "parse_f64": False, "phf_stub": {}, "bitflags_stub": False, "known_lits": [], "strlit_named": False}
                 unit["sources"].append(cur_src)
             elif d == "keep":
                 cur_src["keep"].append(rest)
@@ -128,6 +132,9 @@ def parse_vspec(path):
                 cur_src["phf_stub"][" ".join(args[:-1])] = args[-1]
             elif d == "bitflags_stub":
                 cur_src["bitflags_stub"] = True
+            elif d == "strlit_named":
+                cur_src["strlit_named"] = True
+                cur_src["strlit_facts"] = True
             elif d == "known_lits":
                 cur_src["known_lits"] += json.loads(open(os.path.join(VERIF, "specs", "templates", rest)).read())
             elif d == "parse_f64":
@@ -187,6 +194,17 @@ def parse_vspec(path):
                      "method_of": kv.get("method_of", "")}
                 cur_src["expr_hoists"].append(h)
                 mode = ("exprh", h)
+            elif d == "outline":
+                kv, flags = _kv(args)
+                h = {"in_fn": kv["in"].replace("~", " "), "name": kv["name"], "method_of": kv["method_of"],
+                     "args": kv.get("args", "").replace("~", " "), "sig": "", "spec": "", "entry": "", "attrs": "",
+                     "mut_vars": [v for v in kv.get("mut_vars", "").split(",") if v],
+                     "min_arms": int(kv.get("min_arms", "8")), "props": [p_ for p_ in kv.get("props", "").split(",") if p_]}
+                cur_src["outlines"].append(h)
+                unit["fn_props"][f"{h['method_of']}::{h['name']}"] = h["props"]
+                cur_contract = h
+                cur_contract.setdefault("loops", {})
+                mode = ("outl", h)
             elif d == "item_stub":
                 mode = ("item_stub", cur_src, rest)
             elif d == "macro_stub":
@@ -264,7 +282,8 @@ def gen_sources(unit, external_all=False, canary=None):
             plan["verify"] = []
         if canary is not None:
             plan = json.loads(json.dumps(plan))
-            for key, c in sorted(plan["contracts"].items()):
+            items = sorted(plan["contracts"].items()) + [(f"{o['method_of']}::{o['name']}", o) for o in plan.get("outlines", [])]
+            for key, c in items:
                 canary["n"] = canary.get("n", 0) + 1
                 cf = "vx_canary(%d)" % canary["n"]
                 if c.get("external") or key in plan["external"] or key in unit.get("canary_skip", []):
@@ -321,6 +340,9 @@ def gen_unit(name, canary=False, outname=None):
                     prel, n = re.subn(r"(?m)^(pub open spec fn %s\()" % re.escape(fn), r"#[verifier::opaque] \1", prel)
                     if n != 1:
                         raise SpecError(f"unit {name}: cannot make `{fn}` of unit {u['unit']} opaque")
+        # lemmas of an imported unit are verified in their own unit: here they are only used
+        prel = re.sub(r"(?m)^(pub (?:broadcast )?proof fn )", r"#[verifier::external_body] \1", prel)
+        prel = prel.replace("#[verifier::external_body]\n#[verifier::external_body] pub proof fn", "#[verifier::external_body]\npub proof fn")
         parts.append(prel)
         parts.append(t)
         parts.append(h)
